@@ -367,7 +367,7 @@ def tidal_potential(
         potential_partial2_theta2 += static_coeff * dp2_20_dtheta2
 
     # Multiply by the outer coefficients
-    global_coefficient = (3. / 2.) * G * host_mass * radius**2 / semi_major_axis**3
+    global_coefficient = (3. / 2.) * G * host_mass * radius**2 / (1. * semi_major_axis)**3
 
     potential *= global_coefficient
     potential_partial_theta *= global_coefficient
